@@ -113,6 +113,13 @@ impl Lab for Tuple2<i32, String> {
     fn to_lab(&self) -> String { if self.1 == format!("s{}", self.0) { self.0.to_string() } else { format!("torn({},{})", self.0, self.1) } }
     fn cast_ref(v: f64) -> Self { Tuple2(v as i32, format!("s{}", v as i32)) }
 }
+/// pairs of numbers ordered lexicographically: label x is (x div 4, x mod 4), so the order of the labels is the order
+/// of the pairs and several pairs share a first member (seeded change C10n: pairs compared by their first member only)
+impl Lab for Tuple2<i32, i32> {
+    fn from_lab(x: i128) -> Self { Tuple2(x.div_euclid(4) as i32, x.rem_euclid(4) as i32) }
+    fn to_lab(&self) -> String { (self.0 as i64 * 4 + self.1 as i64).to_string() }
+    fn cast_ref(v: f64) -> Self { Self::from_lab(v as i128) }
+}
 impl Lab for bool {
     fn from_lab(x: i128) -> Self { x != 0 }
     fn cast_ref(v: f64) -> Self { v != 0.0 }
@@ -212,6 +219,7 @@ macro_rules! with_lab_type {
             "u64" => { type $T = u64; $body }
             "list" => { type $T = List<i32>; $body }
             "pair" => { type $T = Tuple2<i32, String>; $body }
+            "pairk" => { type $T = Tuple2<i32, i32>; $body }
             _ => "bad:type".to_string(),
         }
     };
